@@ -14,7 +14,7 @@ CHECKS = {
         text="Every absent/on/off assignment of the 11 flags related by implies/exclusive metadata x every -O level is run through the real "
              "load_commandline_flags and checked against invariants computed from the flag metadata alone (implied flags on, no exclusive pair on, "
              "explicit conflict => error, explicit beats level, cumulative levels, no unjustified error); every permutation of every command line "
-             "with <=4 (quick <=3) such flags, and of {file,-o,-O,-fA,-fno-B}, must resolve identically; all spellings agree; a finite malformed-option "
+             "with <=4 (quick <=3) such flags, and of {file,-o,-O,-fA,-fno-B}, must resolve identically; all spellings agree (a value that differs from yes/on/no/off only in letter case is refused or means its lower-case spelling); a finite malformed-option "
              "menu must give RuntimeError. The space is finite and enumerated completely, so this is a decision for the stated bounds. Histories of two command lines loaded in one process must resolve the second exactly as if it were loaded alone.",
         design_ref="DESIGN.md section 4, C19",
         note="Trusted: ProgramFlag metadata (implies/exclusive_with/defaults) and _OPTIMIZE_LEVELS as the specification of the relations; command lines longer than 4 permuted flags and option *values* beyond the malformed menu are not explored."),
@@ -76,12 +76,12 @@ CHECKS["C01"] = dict(
     category="model_checking",
     technique="explicit-state product search: reference interpreter of the procedural reading (our own AST) x abstract machine over the compiled DFA, with a lead buffer for the permitted one-position slack; witness inputs replayed on the C",
     text="Every program of a bounded universe (all leaf-statement sequences of length <= 2 over the full match/action menus, one block - optional, loop+break, foreach, try/catch with every reason list, case, if - "
-         "with bodies <= 2 and <= 1 statement before/after) is printed from our own AST; each accepted program is explored jointly with the reference interpreter REF to a fixpoint over the source byte classes: "
+         "with bodies <= 2 and <= 1 statement before/after; one block nested in another for every pair of block kinds, 20 196 programs, a rotating tenth in the quick tier) is printed from our own AST; each accepted program is explored jointly with the reference interpreter REF to a fixpoint over the source byte classes: "
          "hook calls with the outputs visible to them, appends, self-referential assignments, yields, finishes, result codes and final outputs must be performed exactly when and as often as the procedural reading "
          "performs them, modulo exactly the stated slack. This visits every reachable (machine state, data, program point) triple of each program, i.e. decides the property for all inputs of that program.",
     design_ref="DESIGN.md sections 3.5 and 4 (C01), nv/ref.py, nv/refcheck.py",
     note="Trusted: REF as the reading of the language reference (spec-open points listed in the evidence assumptions accept a set of behaviours); AM bound to C by C06 plus C replays of the BFS witnesses; "
-         "small scope (depth-1 blocks, menus, 8-bit/short-string data); one open known finding (KF13) is matched structurally.")
+         "small scope (blocks nested at most two deep with one-statement inner bodies, menus, 8-bit/short-string data); one open known finding (KF13) is matched structurally; optionals whose first statement does not match input (an error by the reference) are compiled but not judged.")
 CHECKS["C17"] = dict(
     category="model_checking",
     technique="the C01 product search (REF x abstract machine) with end-of-input explored as a symbol from every reachable product state, on programs compiled with EOF support",
@@ -93,9 +93,9 @@ CHECKS["C17"] = dict(
 CHECKS["C09"] = dict(
     category="model_checking",
     technique="exact language-theoretic decision on derivative automata for statement pairs and case clause sets, plus exhaustive search for ambiguity witnesses over all reachable REF x machine states of accepted programs",
-    text="(a) all 196 x 4 pairs `A; B`, `optional {A} B`, `A; optional {B} \"c\"`, loop shapes over a 14-match menu and (b) all case clause sets of C08 are decided exactly: is there an accepting configuration of A and a byte "
+    text="(a) all 256 x 6 pairs `A; B`, `optional {A} B`, `A; optional {B} \"c\"`, loop shapes over a 16-match menu (including two-byte patterns that start with an inverted set / wildcard) and (b) all case clause sets of C08 are decided exactly: is there an accepting configuration of A and a byte "
          "that both continues A and starts B; are non-greedy clause languages pairwise disjoint and prefix-free; does every greedy tie have a unique top priority. (c) every accepted universe program is explored "
-         "with REF, which raises a witness at any reachable decision point where one byte has two continuations. Accepted-and-ambiguous is a violation with its witness input. Loops whose body can still continue on a byte that starts the next iteration, loops left by a conditional break and duplicate patterns across clauses are part of the pair / case menus.",
+         "with REF, which raises a witness at any reachable decision point where one byte has two continuations. Accepted-and-ambiguous is a violation with its witness input. Loops whose body can still continue on a byte that starts the next iteration, loops left by a conditional break and duplicate patterns across clauses, and greedy ties between an action-only clause and one with a consuming body are part of the pair / case menus.",
     design_ref="DESIGN.md section 4, C09",
     note="Trusted: derivative automata; REF's notion of 'starts what follows' (bytes merely skipped by wait / taken only by else do not count); unambiguous-but-rejected is allowed.")
 
@@ -151,7 +151,7 @@ CHECKS["C13"] = dict(
     category="model_checking",
     technique="each macro program emitted twice from one AST (with macros / inlined by our own substitution); verdict equality and exhaustive bisimulation without slack of the two compiled machines; exhaustive kind x kind error menu",
     text="Macro shapes covering every argument kind (out, match, expr, hook, loop, finishcode, yieldcode, macro), arguments used several times and inside concatenations / conditions / appends, nested calls passing every "
-         "kind through, callee argument names shadowing the caller's, break targets passed in and captured from the call site, zero-argument macros called repeatedly, x menus of match and expression arguments x surrounding "
+         "kind through, callee argument names shadowing the caller's, break targets passed in and captured from the call site, labelled loops inside a macro body expanded several times, zero-argument macros called repeatedly, x menus of match and expression arguments x surrounding "
          "statements are printed both with macros and hand-inlined; verdicts must agree and for accepted pairs the joint state space of both machines is explored completely with no slack. All 8 parameter kinds x 10 wrong argument "
          "kinds, wrong arities, recursion, undefined callee and duplicate parameters must be diagnosed errors.",
     design_ref="DESIGN.md section 4, C13",
@@ -162,7 +162,7 @@ CHECKS["C18"] = dict(
     technique="bounded-exhaustive single-site mutant enumeration (declaration/default and assignment matrices, all printable escapes in every literal context, structural misuse menu, corpus identifier swaps) x option sets, outcome classification",
     text="Every cell of the (output type incl. odd widths and sizes) x (default / assigned / appended atom of every kind) matrices, every escape \\c for every printable c in match, case-insensitive match, assignment, default, "
          "regex, regex-set and char-constant position, malformed \\x / binary literals, ~60 regex shapes, ~110 structural misuse programs (statements in the wrong place, empty and action-only bodies, duplicates, missing flags, "
-         "degenerate repeats, deep nesting) and identifier-for-identifier swaps in every corpus program are compiled under up to five option sets; the outcome must be code, a syntax error or a diagnosed error whose message renders - "
+         "degenerate repeats, deep nesting, end patterns in every position), the nested-block universe of C01 and identifier-for-identifier swaps in every corpus program are compiled under up to nine option sets; literals of more than a thousand characters go through the real command line (default recursion limit); the outcome must be code, a syntax error or a diagnosed error whose message renders - "
          "never another exception or a timeout. Exploration rather than model checking: the space is a finite menu enumerated completely, but the property quantifies over all grammatical sources.",
     design_ref="DESIGN.md section 4, C18",
     note="Trusted: nothing beyond the classification of exceptions; single-site mutants from finite menus only.")
@@ -182,16 +182,16 @@ CHECKS["C20"] = dict(
 CHECKS["C11"] = dict(
     category="exploration",
     technique="t-wise exhaustive covering array over 15 code-generation factors x programs covering every output type / action / node kind; each emitted pair compiled by gcc (c99, c11), clang and g++ (header) with -Wall -Werror, plus a declared-API check",
-    text="Corpus, feature, buffer-operation, yield, EOF-universe, hand-written and universe programs x every row of a covering array (all pairs; thorough: all triples) over level, EOF, yield, indirect pointer, strict done, zero-length, "
+    text="Corpus, feature (including breaks / finishes / overflowing appends three action-only `if` levels deep), buffer-operation, yield, EOF-universe, hand-written and universe programs x every row of a covering array (all pairs; thorough: all triples) over level, EOF, yield, indirect pointer, strict done, zero-length, "
          "storage x5, u8, hook placement, user pointer, packed enums, pragma once, C++ guard, unsafe indexing, range collapsing x4: header and source must compile without warnings under gcc -std=c99 / -std=c11 and clang "
          "(-Wall -Werror -Wno-unused-label), the header alone (included twice) must be valid C and C++, and exactly the documented API must be declared (start, feed, end iff EOF, free iff dynamic memory, hooks as prototypes xor members, "
-         "one enumerator per result code, pointer type of feed). Exploration: t-wise, not the full option product.",
+         "one enumerator per result code, pointer type of feed). Three programs are also compiled under a menu of 12 input file names (leading digit, dashes, dots, blanks, non-ASCII, a C keyword) from which the output name is derived. Exploration: t-wise, not the full option product.",
     design_ref="DESIGN.md section 4, C11",
     note="Trusted: gcc 12 / clang 14 / g++ 12 as the judges of validity.")
 CHECKS["C14"] = dict(
     category="exploration",
     technique="bounded-exhaustive expression trees (every operator x every atom pair; every operator pair in both nestings, printed with minimal parentheses) x contexts x boundary valuations, evaluated by the real generated C and by an independent typed big-integer C evaluator",
-    text="~10^4 distinct well-typed expressions over all 19 operators and atoms of every width/signedness, bool, string length, in/out-of-range indexed bytes and $last, each used in assignments to every int width/sign and bool, "
+    text="~10^4 distinct well-typed expressions over all 19 operators and atoms of every width/signedness, bool, string length, in/out-of-range indexed bytes (including indices that go negative only through the integer promotion of narrow unsigned operands) and $last, each used in assignments to every int width/sign and bool, "
          "character appends, action-only ifs and ifs with consuming bodies (condition points), are packed ~150 per generated parser, the variables are set directly in the state struct to each of a menu of boundary valuations, and every "
          "stored result / branch taken is compared with nv/cexpr.py (integer promotion, usual arithmetic conversions, truncation, wrap, narrowing); valuations where C is undefined are skipped, trapping divisions are isolated.",
     design_ref="DESIGN.md section 4, C14",
@@ -201,7 +201,7 @@ CHECKS["C15"] = dict(
     technique="exhaustive over single bytes: 256 values x every legal spelling x every literal context, all 256 candidate bytes offered at the literal's position on the compiled machine; store/value contexts through an ASan build; all ordered pairs over an adversarial byte set",
     text="For every byte 0..255 and every spelling (raw, \\xHH either case, named escape, hex pair, regex literal / escaped metacharacter / class escape / set member / range endpoint, binary-regex byte / set / range / inverted set) "
          "in string, case-insensitive, binary-string, text-regex and binary-regex matches the compiled machine must accept exactly the spelled byte (either case of ASCII letters for the insensitive form) among all 256 candidates; "
-         "string assignments, string and binary defaults, char constants and dec/0x/0b signed integer literals (statement, math, default) are observed through the C; all ordered pairs over 24 adversarial bytes as two-byte "
+         "string assignments, string and binary defaults, char constants (every escape incl. \\0 and \\\\) and dec/0x/0b signed integer literals incl. decimals with leading zeros (statement, math, default) are observed through the C; programs with raw TAB / VT / FF / CR LF characters inside and outside literals and all feature programs are compiled through the real command line and must behave like the in-process pipeline's output on every string <= 4; all ordered pairs over 24 adversarial bytes as two-byte "
          "matches, assignments and defaults (fail at exactly the first differing byte, stored bytes and length).",
     design_ref="DESIGN.md section 4, C15",
     note="Trusted: AM for the match contexts (bound by C06); raw non-ASCII source characters are not used; multi-byte literals only as adversarial pairs.")
